@@ -67,7 +67,7 @@ def run_engine2(ctx, prefixes, n_quick=3000, n_thorough=40000, ops=40, extra=Non
     if not exe:
         return
     if os.path.exists(CORPUS):
-        outdir = ctx.run_harness(exe, "engine2-replay", 1, extra={"VERIF_REPLAY": CORPUS})
+        outdir = ctx.run_harness(exe, "engine2-replay", 1, extra={"VERIF_REPLAY": CORPUS, "VERIF_FASTPARK": "1"})
         if outdir:
             _check_outdir(ctx, outdir, "engine2-replay", prefixes, "corpus replay")
             ctx.cov["corpus_lines_replayed"] = sum(1 for l in open(CORPUS) if l.startswith("engine2 "))
@@ -127,7 +127,7 @@ def replay_engine2(prop, path, prefixes=None):
         if not exe:
             print(ctx.broken[-1]["detail"])
             return 2
-        outdir = ctx.run_harness(exe, "engine2-replay", 1, extra={"VERIF_REPLAY": rp})
+        outdir = ctx.run_harness(exe, "engine2-replay", 1, extra={"VERIF_REPLAY": rp, "VERIF_FASTPARK": "1"})
         if not outdir:
             print(ctx.broken[-1]["detail"])
             return 2
